@@ -1,5 +1,5 @@
 (* Proofs about Ledger/Events.v: the trace of every history passes the C31 judgement when no operation is an
-   idempotent replay and (the ledger is already in use, or LockLedger propagates hasTx). *)
+   idempotent replay (the pre-fix variant of the model: only when the ledger is already in use). *)
 From Coq Require Import List ZArith Bool Arith Lia.
 From LV Require Import Ledger.Events.
 Import ListNotations.
@@ -19,19 +19,19 @@ Proof.
   unfold cstep; simpl. rewrite Z.eqb_refl; simpl. exact IH.
 Qed.
 
-Definition safe (fx : bool) (s : mst) : Prop := fx = true \/ initializing s = false.
+Definition safe (pf : bool) (s : mst) : Prop := pf = false \/ initializing s = false.
 
 Lemma zmem_last p x : zmem x (p ++ [x]) = true.
 Proof. induction p as [|y p IH]; simpl; [rewrite Z.eqb_refl; reflexivity | rewrite IH; apply orb_true_r]. Qed.
 
 (* ---------- one write through the facade ---------- *)
-Lemma facade_write_ok fx s w s1 tr r :
-  safe fx s -> write_no_hit w = true -> facade_write fx s w = (s1, tr, r) ->
-  csteps c0 tr = inl c0 /\ safe fx s1.
+Lemma facade_write_ok pf s w s1 tr r :
+  safe pf s -> write_no_hit w = true -> facade_write pf s w = (s1, tr, r) ->
+  csteps c0 tr = inl c0 /\ safe pf s1.
 Proof.
   intros Hs Hw H. destruct s as [ini nl cf], w as [dry out]. unfold safe in *; simpl in *.
   destruct out as [| | |hid]; [| | |discriminate Hw];
-    destruct ini, dry, fx; try (destruct Hs as [Hs|Hs]; discriminate Hs);
+    destruct ini, dry, pf; try (destruct Hs as [Hs|Hs]; discriminate Hs);
     destruct cf as [[|n]|];
     unfold facade_write, ev_write, forge_log, ctrl_commit, sql_commit, lock_frame, begin_frame, root in H; simpl in H;
     inversion H; subst; clear H; simpl; unfold cstep; simpl; rewrite ?Z.eqb_refl; simpl;
@@ -76,17 +76,17 @@ Proof.
       inversion E1; subst; reflexivity.
 Qed.
 
-Lemma bulk_plain_ok fx cont ws : forall s err s2 tr err2,
-  safe fx s -> forallb write_no_hit ws = true ->
-  bulk_plain_elems fx cont s err ws = (s2, tr, err2) ->
-  csteps c0 tr = inl c0 /\ safe fx s2.
+Lemma bulk_plain_ok pf cont ws : forall s err s2 tr err2,
+  safe pf s -> forallb write_no_hit ws = true ->
+  bulk_plain_elems pf cont s err ws = (s2, tr, err2) ->
+  csteps c0 tr = inl c0 /\ safe pf s2.
 Proof.
   induction ws as [|w ws IH]; intros s err s2 tr err2 Hs Hn H; simpl in *.
   - inversion H; subst. split; [reflexivity | exact Hs].
   - apply andb_true_iff in Hn. destruct Hn as [Hw Hn].
     destruct (err && negb cont); [eapply IH; eassumption|].
-    destruct (facade_write fx s {| w_dry := false; w_out := w_out w |}) as [[s1 tr1] x] eqn:E1.
-    destruct (bulk_plain_elems fx cont s1 (err || negb (res_ok x)) ws) as [[s3 tr3] err3] eqn:E.
+    destruct (facade_write pf s {| w_dry := false; w_out := w_out w |}) as [[s1 tr1] x] eqn:E1.
+    destruct (bulk_plain_elems pf cont s1 (err || negb (res_ok x)) ws) as [[s3 tr3] err3] eqn:E.
     inversion H; subst; clear H.
     assert (Hw' : write_no_hit {| w_dry := false; w_out := w_out w |} = true) by exact Hw.
     destruct (facade_write_ok _ _ _ _ _ _ Hs Hw' E1) as [Hc Hs1].
@@ -94,9 +94,9 @@ Proof.
     split; [|exact Hs2]. rewrite csteps_app, Hc. exact Hc2.
 Qed.
 
-Lemma bulk_ok fx atomic cont s ws s2 tr :
-  safe fx s -> forallb write_no_hit ws = true -> bulk fx atomic cont s ws = (s2, tr) ->
-  csteps c0 tr = inl c0 /\ safe fx s2.
+Lemma bulk_ok pf atomic cont s ws s2 tr :
+  safe pf s -> forallb write_no_hit ws = true -> bulk pf atomic cont s ws = (s2, tr) ->
+  csteps c0 tr = inl c0 /\ safe pf s2.
 Proof.
   intros Hs Hn H. unfold bulk in H. destruct atomic.
   - destruct (bulk_atomic_elems cont [begin_frame; root] s false ws) as [[[s1 stk] tr1] err] eqn:E.
@@ -107,46 +107,58 @@ Proof.
       * simpl. rewrite csteps_app, Hc. reflexivity.
       * unfold safe in *. rewrite Hi. exact Hs.
     + subst stk. unfold ctrl_commit, sql_commit in H. simpl in H.
-      assert (Hsafe : forall c, safe fx (with_cfail s1 c)).
+      assert (Hsafe : forall c, safe pf (with_cfail s1 c)).
       { intros c. unfold safe in *. simpl. rewrite Hi. exact Hs. }
       destruct (cfail s1) as [[|n]|]; inversion H; subst; clear H; (split; [|auto]).
       * simpl. rewrite csteps_app, Hc. reflexivity.
       * simpl. rewrite csteps_app, Hc. simpl. apply csteps_publish_queue.
       * simpl. rewrite csteps_app, Hc. simpl. apply csteps_publish_queue.
       * unfold safe in *. rewrite Hi. exact Hs.
-  - destruct (bulk_plain_elems fx cont s false ws) as [[s1 tr1] e] eqn:E.
+  - destruct (bulk_plain_elems pf cont s false ws) as [[s1 tr1] e] eqn:E.
     inversion H; subst; clear H. eapply bulk_plain_ok; eassumption.
 Qed.
 
-Lemma eop_ok fx s o s2 tr :
-  safe fx s -> eop_no_hit o = true -> eop_run fx s o = (s2, tr) -> csteps c0 tr = inl c0 /\ safe fx s2.
+Lemma eop_ok pf s o s2 tr :
+  safe pf s -> eop_no_hit o = true -> eop_run pf s o = (s2, tr) -> csteps c0 tr = inl c0 /\ safe pf s2.
 Proof.
   intros Hs Hn H. destruct o as [w|a c ws|n|]; simpl in *.
-  - destruct (facade_write fx s w) as [[s1 tr1] r] eqn:E. inversion H; subst. eapply facade_write_ok; eassumption.
+  - destruct (facade_write pf s w) as [[s1 tr1] r] eqn:E. inversion H; subst. eapply facade_write_ok; eassumption.
   - eapply bulk_ok; eassumption.
   - inversion H; subst. split; [reflexivity | exact Hs].
   - inversion H; subst. split; [reflexivity | exact Hs].
 Qed.
 
-Lemma run_ops_ok fx ops : forall s s2 tr,
-  safe fx s -> forallb eop_no_hit ops = true -> run_ops fx s ops = (s2, tr) -> csteps c0 tr = inl c0.
+Lemma run_ops_ok pf ops : forall s s2 tr,
+  safe pf s -> forallb eop_no_hit ops = true -> run_ops pf s ops = (s2, tr) -> csteps c0 tr = inl c0.
 Proof.
   induction ops as [|o ops IH]; intros s s2 tr Hs Hn H; simpl in *.
   - inversion H; reflexivity.
   - apply andb_true_iff in Hn. destruct Hn as [Ho Hn].
-    destruct (eop_run fx s o) as [s1 tr1] eqn:E1. destruct (run_ops fx s1 ops) as [s3 tr3] eqn:E.
+    destruct (eop_run pf s o) as [s1 tr1] eqn:E1. destruct (run_ops pf s1 ops) as [s3 tr3] eqn:E.
     inversion H; subst; clear H.
     destruct (eop_ok _ _ _ _ _ Hs Ho E1) as [Hc Hs1].
     rewrite csteps_app, Hc. eapply IH; eassumption.
 Qed.
 
-Theorem trace_check_ok fx init ops :
-  (fx = true \/ init = false) -> forallb eop_no_hit ops = true -> check (trace_of fx init ops) = VOk.
+Theorem run_check_ok pf init n ops :
+  (pf = false \/ init = false) -> forallb eop_no_hit ops = true ->
+  check (snd (run_ops pf {| initializing := init; next_log := n; cfail := None |} ops)) = VOk.
 Proof.
-  intros Hs Hn. unfold check, trace_of.
-  destruct (run_ops fx (fresh init) ops) as [s2 tr] eqn:E. simpl.
-  rewrite (run_ops_ok fx ops (fresh init) s2 tr Hs Hn E). reflexivity.
+  intros Hs Hn. unfold check.
+  destruct (run_ops pf {| initializing := init; next_log := n; cfail := None |} ops) as [s2 tr] eqn:E. simpl.
+  rewrite (run_ops_ok pf ops {| initializing := init; next_log := n; cfail := None |} s2 tr Hs Hn E). reflexivity.
 Qed.
+
+(* the model of the code: every history without idempotent replays, on initializing and in-use ledgers alike *)
+Theorem trace_check_ok init ops : forallb eop_no_hit ops = true -> check (trace_of init ops) = VOk.
+Proof. intros Hn. apply (run_check_ok false init 1 ops); [left; reflexivity | exact Hn]. Qed.
+
+Theorem trace_from_check_ok init n ops : forallb eop_no_hit ops = true -> check (trace_from init n ops) = VOk.
+Proof. intros Hn. apply (run_check_ok false init n ops); [left; reflexivity | exact Hn]. Qed.
+
+(* the historical variant was correct on in-use ledgers only *)
+Theorem trace_pre_fix_check_ok ops : forallb eop_no_hit ops = true -> check (trace_pre_fix false ops) = VOk.
+Proof. intros Hn. apply (run_check_ok true false 1 ops); [right; reflexivity | exact Hn]. Qed.
 
 (* ---------- what a passing judgement means, declaratively ----------
    [closed_after id pre]: in [pre] the log was appended inside a top-level transaction whose COMMIT succeeded:
